@@ -149,6 +149,17 @@ def gen(ctx):
         f = (rng.choice([4, 3, 0, 255]) if rng.chance(1, 6) else 4, rng.choice([0, 1, 23456, 64496, 65535]), rng.below(65536), bytes(rng.below(256) for _ in range(4)))
         add('OPEN', encode_open(f[0], f[1], f[2], f[3], params).hex(), ('valid', f, params))
     # 3. malformed: wrong header length, truncations, trailing octets, mutated octets, random octets
+    # every length field consistent, but the optional-parameter area does not end on a parameter boundary: 0..3 complete
+    # parameters followed by one stray octet, or by a type / length pair whose value is cut short
+    for _ in range(60 if quick else 2000):
+        caps = [(c, valid_cap_value(c, rng)) for c in [rng.choice(codes) for _ in range(rng.below(4))]]
+        pb = b''.join(bytes([2, 2 + len(v), c, len(v)]) + v for c, v in caps)
+        tail = rng.choice([bytes([rng.choice([0, 1, 2, 255])]), bytes([2, 3, 65]), bytes([2, 6, 65, 4, 0, 0]), bytes([2, 1])])
+        if len(pb) + len(tail) > 255:
+            continue
+        body = bytes([4]) + struct.pack('>HH', 64496, 180) + b'\x01\x02\x03\x04' + bytes([len(pb) + len(tail)]) + pb + tail
+        add('OPEN', (hdr(19 + len(body), 1) + body).hex(), ('mal',))
+        add('MSG', (hdr(19 + len(body), 1) + body).hex(), ('mal',))
     for _ in range(800 if quick else 30000):
         params = [('caps', [(c, valid_cap_value(c, rng)) for c in [rng.choice(codes) for _ in range(rng.below(4))]])]
         if sum(2 + len(v) for _, v in params[0][1]) > 250:
